@@ -564,7 +564,19 @@ def r5_mate_scores(ctx):
     ctx.ob(rule, name, 'remaining depth is u8 (cast to i16 is lossless)', dty == 'u8', found=dty, expected='u8')
 
 
+def r6_verdicts(ctx):
+    """score returns 0 / the mate value exactly for the positions game_ending calls stalemate / checkmate: that classification must be
+    'no legal move' combined with 'in check' (= C06.R2: decided from the full legal-move list, not from a shortcut that counts the moves of
+    pinned pieces)"""
+    from . import c06
+    import_rules(ctx, 'C18.R6-verdict-source', [c06.r2_tables],
+                 'stalemate scores zero and mate scores dominate only if game_ending recognises them: a "has any move" shortcut that skips the '
+                 'king-safety simulation calls a stalemated side with a pinned piece "not ended" and the material balance is returned instead of 0',
+                 keep=lambda s: 'game_ending' in s['function'] or 'floor' in s['instance'], floor=3)
+
+
 def run(ctx):
+    r6_verdicts(ctx)
     r1_mirror(ctx)
     r2_colour_blind(ctx)
     r3_is_endgame(ctx)
